@@ -34,7 +34,7 @@ CHECKS = {
     'C10': ('fault_enumeration', '§4 C10',
             'Exhaustive single-fault enumeration per model: the all-bound world and one world per event (every exposed port, every registered client of a '
             'multi-client port, the component\'s own and injected ports) left unbound; FinalConstruct must throw a binding error iff something is unbound; '
-            'registration is closed afterwards (a refused registration leaves nothing behind); worlds in which the user\'s log sink re-enters the shell and registers a client of its own.',
+            'registration is closed afterwards (a refused registration leaves nothing behind); worlds in which the user\'s log sink re-enters the shell (registers a client of its own, or calls FinalConstruct itself in the middle of an interleaved set-up).',
             'exhaustive single-binding-fault enumeration on the compiled shell'),
     'C11': ('exploration', '§4 C11',
             'ThreadSanitizer build in which the baton is invisible, so only the program\'s own synchronisation orders accesses: 2-3 client threads in '
